@@ -23,6 +23,7 @@ type Env struct {
 	inOld   bool
 	callSite bool // evaluating a callee's contract at a call site (as opposed to the function's own contract)
 	dualQuant bool // the formula being built is assumed: a forall is emitted in both index forms (see forall)
+	olderLimit string // loop invariants: addresses below this term belong to objects that exist already (see older)
 }
 
 // contractEnv builds the environment for the function's own contract.
@@ -696,6 +697,20 @@ func (env *Env) evalCall(x *ast.CallExpr) Val {
 				return boolVal(eq(ref, fc.allocRef()))
 			}
 			return boolVal(app("bvuge", ref, "allocbase"))
+		case "older":
+			// older(x), loop invariants only: the object x refers to exists already when an iteration starts, so it is
+			// none of the objects the iteration allocates. Assumed at the loop head as "address below this loop's first
+			// allocation"; checked at the back edge as "allocated by now" (objects of finished iterations are older for
+			// the next one; sound because invariants cannot tell addresses apart except by equality and by older).
+			if env.olderLimit == "" {
+				userErr("older() is only meaningful in loop invariants")
+			}
+			v := env.eval(x.Args[0])
+			ref := v.L[0]
+			if len(v.L) == 3 {
+				ref = v.L[1]
+			}
+			return boolVal(app("bvult", ref, env.olderLimit))
 		case "haskey":
 			m := env.eval(x.Args[0])
 			mt := m.T.Underlying().(*types.Map)
@@ -775,6 +790,9 @@ func (env *Env) evalIndex(x *ast.IndexExpr) Val {
 		i := env.to64(env.eval(x.Index))
 		et := u.Elem()
 		pos := app("bvadd", base.L[1], i)
+		if len(env.bound) > 0 {
+			pos = simplifySum(pos)
+		}
 		if ptrIsThin(et) {
 			return fc.loadAt(env.st, et, fc.eltRef(base.L[0], pos))
 		}
@@ -786,6 +804,12 @@ func (env *Env) evalIndex(x *ast.IndexExpr) Val {
 		k := env.eval(x.Index)
 		k = env.typed(k, u.Key())
 		return fc.mapGet(env.st, base, k)
+	case *types.Pointer:
+		// pointer to an array (a local array variable is named by its address)
+		if at, ok := u.Elem().Underlying().(*types.Array); ok && !ptrIsThin(at.Elem()) {
+			i := env.to64(env.eval(x.Index))
+			return fc.loadFat(env.st, at.Elem(), fatPtr{bvLit(1, 16), base.L[0], i})
+		}
 	}
 	userErr("cannot index %s", base.T)
 	return Val{}
@@ -964,17 +988,34 @@ func quantAnchor(body ast.Expr, name string) (ast.Expr, []ast.Expr) {
 	}
 	var sx ast.Expr
 	var rest []ast.Expr
+	// variables bound by quantifiers nested in body: S and the other summands must not depend on them either
+	inner := map[string]bool{}
+	ast.Inspect(body, func(n ast.Node) bool {
+		if call, ok := n.(*ast.CallExpr); ok && len(call.Args) >= 2 {
+			if id, ok := call.Fun.(*ast.Ident); ok && (id.Name == "forall" || id.Name == "exists") {
+				if v, ok := call.Args[0].(*ast.Ident); ok {
+					inner[v.Name] = true
+				}
+			}
+		}
+		return true
+	})
+	mentionsInner := func(e ast.Expr) bool {
+		found := false
+		ast.Inspect(e, func(n ast.Node) bool {
+			if id, ok := n.(*ast.Ident); ok && inner[id.Name] {
+				found = true
+			}
+			return !found
+		})
+		return found
+	}
 	ast.Inspect(body, func(n ast.Node) bool {
 		if sx != nil {
 			return false
 		}
-		if call, ok := n.(*ast.CallExpr); ok {
-			if id, ok := call.Fun.(*ast.Ident); ok && (id.Name == "forall" || id.Name == "exists") {
-				return false
-			}
-		}
 		ix, ok := n.(*ast.IndexExpr)
-		if !ok || mentions(ix.X) {
+		if !ok || mentions(ix.X) || mentionsInner(ix.X) {
 			return true
 		}
 		var leaves []ast.Expr
@@ -999,7 +1040,7 @@ func quantAnchor(body ast.Expr, name string) (ast.Expr, []ast.Expr) {
 		for _, l := range leaves {
 			if id, ok := l.(*ast.Ident); ok && id.Name == name {
 				n1++
-			} else if mentions(l) {
+			} else if mentions(l) || mentionsInner(l) {
 				return true
 			} else {
 				others = append(others, l)
